@@ -11,7 +11,7 @@ import (
 func init() {
 	regSpec(func() scen.Spec { return scen.C07Spec(false) })
 	Registry["C07"] = func(tier string) int {
-		return engineA("C07", tier, []scen.Spec{scen.C07Spec(tier != "thorough"), scen.Market(), scen.GovPool()},
+		return engineA("C07", tier, []scen.Spec{scen.C07Spec(tier != "thorough"), scen.OddGenesis(), scen.Market(), scen.GovPool()},
 			func() []explore.Monitor { return []explore.Monitor{&mon.C07{FeePool: scen.FeePool.String()}} },
 			budget(tier, 150*time.Second, 15*time.Minute),
 			"C07 alphabet bound: ask x quantity stays below 34 significant digits (beyond it the subtotal is computed with 34-digit rounding, DESIGN §9-D8)")
